@@ -29,7 +29,7 @@ from modelx.core.formula import (
     HasFormula, create_closure
 )
 from modelx.core.util import is_valid_name
-from modelx.core.errors import NoneReturnedError
+from modelx.core.errors import NoneReturnedError, DeletedObjectError
 from modelx.core.node import ItemFactory, ItemFactoryImpl
 from modelx.core.namespace import BaseNamespaceReferrer
 
@@ -57,7 +57,10 @@ class CellsBoundFunction(BoundFunction):
         if closure is not None:  # pytest fails without this.
             closure = create_closure(self.owner.interface)
 
-        ns = {k: v._impl.call if isinstance(v, Cells) else v
+        # A reference may hold a Cells that was deleted: it stays as it is
+        # in the namespace and raises DeletedObjectError when it is used
+        ns = {k: v._impl.call
+              if isinstance(v, Cells) and v._is_valid() else v
               for k, v in self.owner.namespace.interfaces.items()}
 
         self.altfunc = FunctionType(
@@ -743,6 +746,9 @@ class CellsImpl(*_cells_impl_base):
     # Get/Set values
 
     def on_eval_formula(self, key):
+        if self.interface._impl is not self:
+            # Called through a namespace built before the cells was deleted
+            raise DeletedObjectError("the object has been deleted")
         if self.is_cached:
             return self._store_value(key, self.altfunc.fresh.altfunc(*key))
         else:
